@@ -58,6 +58,24 @@ def concrete(value: Any) -> Any:
     return deep_realize(value)
 
 
+def pick(code: Any, n: int) -> int:
+    """Solver-chosen index in range(n) as a *concrete* int, decided by a balanced tree of
+    z3-decided comparisons (log2(n) forks per path) instead of value-by-value realisation, which
+    revisits values and costs solver time quadratic in the number of paths."""
+    assume(0 <= code)
+    assume(code < n)
+    if not _tracing():
+        return int(code)
+    lo, hi = 0, n
+    while hi - lo > 1:
+        mid = (lo + hi) // 2
+        if code < mid:
+            hi = mid
+        else:
+            lo = mid
+    return lo
+
+
 def native(fn: Callable[..., Any], *args: Any) -> Any:
     """Run ``fn`` on realised arguments with the tracer paused: used for reference models, so that
     CrossHair's replacement dict/set/str models cannot influence the oracle."""
